@@ -136,39 +136,3 @@ Proof.
   - now apply single_characters.
   - now apply class_pairs.
 Qed.
-
-(** * Non-vacuity witnesses (used by Properties/C08.v) *)
-Local Transparent representatives c08_alphabet shape.
-
-Lemma ex_single :
-  In 233 c08_alphabet /\ In PBraces schemes /\ In sls_macros policies /\
-  encode_builtin false PBraces UKeep [233] = EncOk (lit "\'e") /\
-  roundtrip PBraces sls_macros [233] = Some [233].
-Proof.
-  split; [apply mem_N_In; vm_compute; reflexivity|].
-  split; [left; reflexivity|]. split; [left; reflexivity|].
-  split; vm_compute; reflexivity.
-Qed.
-
-Lemma ex_pairs :
-  In 92 representatives /\ In 65 representatives /\ In 192 representatives /\
-  has_ligature [92; 65] = false /\
-  encode_builtin false PBraces UKeep [92; 65] = EncOk (lit "{\textbackslash}A") /\
-  encode_builtin false PBracesAfterMacro UKeep [92; 65] = EncOk (lit "\textbackslash{}A") /\
-  roundtrip PBraces sls_alltrue [92; 65] = Some [92; 65] /\
-  roundtrip PBracesAfterMacro sls_macros [192; 65] = Some [192; 65] /\
-  roundtrip PNone sls_macros [92; 65] <> Some [92; 65] /\
-  has_ligature [45; 45] = true /\ roundtrip PBraces sls_macros [45; 45] <> Some [45; 45].
-Proof.
-  split; [apply (proj1 (mem_N_In 92 representatives)); vm_compute; reflexivity|].
-  split; [apply (proj1 (mem_N_In 65 representatives)); vm_compute; reflexivity|].
-  split; [apply (proj1 (mem_N_In 192 representatives)); vm_compute; reflexivity|].
-  split; [vm_compute; reflexivity|].
-  split; [vm_compute; reflexivity|].
-  split; [vm_compute; reflexivity|].
-  split; [vm_compute; reflexivity|].
-  split; [vm_compute; reflexivity|].
-  split; [vm_compute; discriminate|].
-  split; [vm_compute; reflexivity|].
-  vm_compute; discriminate.
-Qed.
